@@ -48,7 +48,113 @@ type class struct {
 	name string
 	kind string
 	id   tls.ClientHelloID
-	mk   func() *tls.ClientHelloSpec
+	mk   func() *tls.ClientHelloSpec // the spec in force (nil: the id's own preset)
+	// prep: how the caller prepares the UConn instead of one ApplyPreset(mk()), e.g. ApplyPreset of another spec first
+	// (the caller replaces the spec before the handshake); the last spec applied is mk().
+	prep func(*tls.UConn) error
+}
+
+// opts: the client side of hs.Opts for this class
+func (cl class) opts() hs.Opts {
+	if cl.prep != nil {
+		return hs.Opts{ID: cl.id, Prepare: cl.prep}
+	}
+	return hs.Opts{ID: cl.id, Spec: specOf(cl)}
+}
+
+func with(o hs.Opts, ccfg, scfg *tls.Config, script *tls.VerifServerScript) hs.Opts {
+	o.ClientCfg, o.ServerCfg, o.Script = ccfg, scfg, script
+	return o
+}
+
+// applySeq: ApplyPreset of each spec in turn (fresh spec objects each time)
+func applySeq(mks ...func() *tls.ClientHelloSpec) func(*tls.UConn) error {
+	return func(u *tls.UConn) error {
+		for _, mk := range mks {
+			if err := u.ApplyPreset(mk()); err != nil {
+				return err
+			}
+		}
+		return nil
+	}
+}
+
+func presetOf(id tls.ClientHelloID) func() *tls.ClientHelloSpec {
+	return func() *tls.ClientHelloSpec {
+		sp, _ := tls.UTLSIdToSpec(id)
+		return &sp
+	}
+}
+
+// versionsSpec: a custom spec whose supported_versions extension lists exactly [versions] in that order (GREASE
+// placeholders allowed anywhere), with TLSVersMin/TLSVersMax as given (0, 0 = derived from the list by SetTLSVers).
+func versionsSpec(versions []uint16, vmin, vmax uint16) func() *tls.ClientHelloSpec {
+	return func() *tls.ClientHelloSpec {
+		sp, _ := tls.UTLSIdToSpec(tls.HelloFirefox_99)
+		for _, e := range sp.Extensions {
+			if sv, ok := e.(*tls.SupportedVersionsExtension); ok {
+				sv.Versions = append([]uint16(nil), versions...)
+			}
+		}
+		sp.TLSVersMin, sp.TLSVersMax = vmin, vmax
+		return &sp
+	}
+}
+
+func versionClasses(rng func(int) int, nrandom int) []class {
+	G := uint16(tls.GREASE_PLACEHOLDER)
+	V13, V12, V11, V10 := uint16(tls.VersionTLS13), uint16(tls.VersionTLS12), uint16(tls.VersionTLS11), uint16(tls.VersionTLS10)
+	mk := func(name string, vs []uint16, vmin, vmax uint16) class {
+		return class{name: name, kind: "custom", id: tls.HelloCustom, mk: versionsSpec(vs, vmin, vmax)}
+	}
+	out := []class{
+		mk("custom-sv-desc-unset", []uint16{V13, V12}, 0, 0),
+		mk("custom-sv-asc-unset", []uint16{V12, V13}, 0, 0),
+		mk("custom-sv-asc-set", []uint16{V12, V13}, V12, V13),
+		mk("custom-sv-shuffled-unset", []uint16{V12, V13, V11}, 0, 0),
+		mk("custom-sv-grease-mid-unset", []uint16{V13, G, V12}, 0, 0),
+		mk("custom-sv-grease-asc-unset", []uint16{G, V12, V13}, 0, 0),
+		mk("custom-sv-asc-grease-last-unset", []uint16{V10, V11, V12, V13, G}, 0, 0),
+		mk("custom-sv-gap-set", []uint16{V11, V13}, V11, V13),
+	}
+	all := []uint16{V10, V11, V12}
+	for k := 0; k < nrandom; k++ {
+		vs := []uint16{V13}
+		for _, v := range all {
+			if rng(2) == 0 {
+				vs = append(vs, v)
+			}
+		}
+		for i := len(vs) - 1; i > 0; i-- {
+			j := rng(i + 1)
+			vs[i], vs[j] = vs[j], vs[i]
+		}
+		if rng(2) == 0 {
+			at := rng(len(vs) + 1)
+			vs = append(vs[:at], append([]uint16{G}, vs[at:]...)...)
+		}
+		vmin, vmax := uint16(0), uint16(0)
+		label := "unset"
+		if rng(3) == 0 {
+			vmin, vmax = V13, V13
+			for _, v := range vs {
+				if v != G && v < vmin {
+					vmin = v
+				}
+			}
+			label = "set"
+		}
+		var names []string
+		for _, v := range vs {
+			if v == G {
+				names = append(names, "g")
+			} else {
+				names = append(names, versName[v])
+			}
+		}
+		out = append(out, mk("custom-sv-"+strings.Join(names, "-")+"-"+label, vs, vmin, vmax))
+	}
+	return out
 }
 
 type scenario struct {
@@ -62,6 +168,7 @@ type scenario struct {
 	psk     bool                         // resumption attempt: a first full handshake fills the session cache
 	exclude bool                         // one of the two classes C10_holds_if excludes (a finding)
 	must    bool                         // always part of the quick tier
+	pin     uint16                       // non-zero: pin the server to one version (MinVersion = MaxVersion; this value when the scenario sets none)
 }
 
 var edCert *tls.Certificate
@@ -208,6 +315,25 @@ func scenarios(p *hs.PKI, cl class, w *hs.WireHello, specmin uint16, rot int, pr
 		v := v
 		sc = append(sc, scenario{kind: "version" + versName[v], detail: "max" + versName[v], alpn: both, must: true, cfg: func(c *tls.Config) { c.MaxVersion = v }})
 	}
+	// supported_versions in wire order, GREASE dropped: descending?
+	var pin uint16
+	if w.HasSupportedVers {
+		prev := uint16(0xffff)
+		for _, v := range w.SupportedVersions {
+			if hs.IsGREASE(v) {
+				continue
+			}
+			if v > prev && len(adv) > 0 {
+				pin = adv[0] // the highest advertised version, unless the scenario names another
+			}
+			prev = v
+		}
+	}
+	defer func() {
+		for i := range sc {
+			sc[i].pin = pin
+		}
+	}()
 	if v13 {
 		var offered13 []uint16
 		for _, s := range real13 {
@@ -415,9 +541,17 @@ func runOne(p *hs.PKI, cl class, sc scenario) *outcome {
 	if sc.ccfg != nil {
 		sc.ccfg(ccfg)
 	}
+	if sc.pin != 0 {
+		// the hello lists its versions in a non-descending order: the outcome must not depend on whose preference order
+		// the server follows, so the server is pinned to the single version this scenario is about
+		if scfg.MaxVersion == 0 {
+			scfg.MaxVersion = sc.pin
+		}
+		scfg.MinVersion = scfg.MaxVersion
+	}
 	if sc.pre != nil {
 		// an earlier connection of another parrot uses the very same *Config (a caller reusing one Config for its dials)
-		runConn(hs.Opts{ID: sc.pre.id, Spec: specOf(*sc.pre), ClientCfg: ccfg, ServerCfg: p.ServerConfig("h2", "http/1.1")})
+		runConn(with(sc.pre.opts(), ccfg, p.ServerConfig("h2", "http/1.1"), nil))
 	}
 	if sc.psk {
 		// a first full handshake against an ordinary server stores a ticket; the second hello carries pre_shared_key
@@ -429,7 +563,7 @@ func runOne(p *hs.PKI, cl class, sc scenario) *outcome {
 		scfg.SessionTicketsDisabled = false
 		scfg.SetSessionTicketKeys([][32]byte{key})
 		ccfg.ClientSessionCache = cache
-		hs.Run(hs.Opts{ID: cl.id, Spec: specOf(cl), ClientCfg: ccfg, ServerCfg: scfg0})
+		hs.Run(with(cl.opts(), ccfg, scfg0, nil))
 		ccfg = p.ClientConfig()
 		ccfg.ClientSessionCache = cache
 	}
@@ -437,7 +571,7 @@ func runOne(p *hs.PKI, cl class, sc scenario) *outcome {
 	if sc.script != nil {
 		sc.script(script)
 	}
-	r := runConn(hs.Opts{ID: cl.id, Spec: specOf(cl), ClientCfg: ccfg, ServerCfg: scfg, Script: script})
+	r := runConn(with(cl.opts(), ccfg, scfg, script))
 	return &outcome{cl: cl, sc: sc, res: r, scfg: scfg}
 }
 
@@ -585,14 +719,43 @@ func run(c *vh.Ctx) {
 		class{name: "custom-five-shares", kind: "custom", id: tls.HelloCustom, mk: customSpec([]tls.CurveID{tls.CurveP256, tls.X25519MLKEM768, tls.X25519, tls.CurveP384, tls.CurveP521}, all, 0)},
 		class{name: "custom-mlkem-only", kind: "custom", id: tls.HelloCustom, mk: customSpec([]tls.CurveID{tls.X25519MLKEM768}, all, 0)},
 		class{name: "custom-p384-only-groups", kind: "custom", id: tls.HelloCustom, mk: customSpec([]tls.CurveID{tls.CurveP384}, []tls.CurveID{tls.CurveP384, tls.CurveP521}, 0)})
+	// supported_versions in every kind of order, TLSVersMin/TLSVersMax unset and set
+	nsv := 12
+	if quick {
+		nsv = 3
+	}
+	classes = append(classes, versionClasses(c.Rng.Intn, nsv)...)
+	// the caller replaces the spec before the handshake: ApplyPreset more than once on one UConn
+	ff, ch := presetOf(tls.HelloFirefox_120), presetOf(tls.HelloChrome_133)
+	five := customSpec([]tls.CurveID{tls.CurveP256, tls.X25519MLKEM768, tls.X25519, tls.CurveP384, tls.CurveP521}, all, 0)
+	mlk := customSpec([]tls.CurveID{tls.X25519MLKEM768}, all, 0)
+	re := func(name string, last func() *tls.ClientHelloSpec, seq ...func() *tls.ClientHelloSpec) class {
+		return class{name: name, kind: "custom", id: tls.HelloCustom, mk: last, prep: applySeq(append(seq, last)...)}
+	}
+	classes = append(classes,
+		re("re-firefox120-twice", ff, ff),
+		re("re-chrome133-then-firefox120", ff, ch),
+		re("re-firefox120-then-chrome133", ch, ff),
+		re("re-five-shares-then-firefox120", ff, five),
+		re("re-mlkem-only-then-firefox120", ff, mlk),
+		re("re-firefox120-three-times", ff, ff, ff))
+	if fc, ok := fingerprinted(p, class{name: "Firefox_120", kind: "parrot", id: tls.HelloFirefox_120}); ok {
+		classes = append(classes, re("re-fp-Firefox_120-twice", fc.mk, fc.mk))
+	}
+	if fc, ok := fingerprinted(p, class{name: "Chrome_133", kind: "parrot", id: tls.HelloChrome_133}); ok {
+		classes = append(classes, re("re-fp-Chrome_133-after-firefox120", fc.mk, ff))
+	}
 
 	// ---- probes: the class's own wire hello ----
 	probes := map[string]*hs.Result{}
 	alpnOf := map[string][]string{}
 	for _, cl := range classes {
-		pr := hs.Run(hs.Opts{ID: cl.id, Spec: specOf(cl), ClientCfg: p.ClientConfig(), ServerCfg: p.ServerConfig("h2", "http/1.1")})
+		pr := hs.Run(with(cl.opts(), p.ClientConfig(), p.ServerConfig("h2", "http/1.1"), nil))
 		if pr.BuildErr != nil || pr.Wire == nil {
+			// every class here is a predefined / randomized / fingerprinted / well-formed custom spec: it must build
 			c.Count("build-error")
+			c.Fail("build/"+cl.name, "ApplyPreset / BuildHandshakeState failed on a well-formed spec", map[string]any{"class": cl.name, "kind": cl.kind},
+				errStr(pr.BuildErr), "a ClientHello")
 			continue
 		}
 		probes[cl.name] = pr
